@@ -18,6 +18,7 @@ MODEL_UNITS = {
     "nq": ("nq", None),
     "nd": ("dimensionless", None),
     "pc": ("percent", None),
+    "lr": ("lb/la", None),  # a ratio unit: dimensionless by cancellation, scale 1024
     "rad": ("radian", None),
     "K": ("K", None),
     "R": ("R", None),
@@ -287,56 +288,127 @@ def call_ufunc(case, x0, x1):
     raise ValueError(form)
 
 
-def call_arrfn(case, x0, x1):
+def _arr_args(case, x0, x1):
+    """The call of one array function as (function, [(parameter name, value), ...], index of the first value slot,
+    extra keyword arguments).  A parameter name None = positional-only in NumPy."""
     np = _G["np"]
     op = case["op"]
-    if op in ("concatenate", "stack", "vstack", "hstack", "dstack", "column_stack", "block"):
-        return getattr(np, op)([x0, x1])
+    f = getattr(np, {"copyto_where": "copyto", "histogram_range": "histogram"}.get(op, op))
+    if op == "concatenate":
+        return f, [(None, [x0, x1])], 0, {}
+    if op in ("stack", "block"):
+        return f, [("arrays", [x0, x1])], 0, {}
+    if op in ("vstack", "hstack", "dstack", "column_stack"):
+        return f, [("tup", [x0, x1])], 0, {}
     if op == "append":
-        return np.append(x0, x1)
+        return f, [("arr", x0), ("values", x1)], 1, {}
     if op == "where":
-        return np.where(_mask(case), x0, x1)
+        return f, [(None, _mask(case)), (None, x0), (None, x1)], 1, {}
     if op == "choose":
-        return np.choose(_mask(case, alt=True).astype(int), [x0, x1])
+        return f, [("a", _mask(case, alt=True).astype(int)), ("choices", [x0, x1])], 1, {}
     if op == "select":
         default = _G["uq"](7.0, x0.units)
-        return np.select([_mask(case), _mask(case, alt=True)], [x0, x1], default=default)
-    if op in ("intersect1d", "union1d", "setdiff1d", "setxor1d", "isin"):
-        return getattr(np, op)(x0, x1)
+        return f, [("condlist", [_mask(case), _mask(case, alt=True)]), ("choicelist", [x0, x1])], 1, {"default": default}
+    if op in ("intersect1d", "union1d", "setdiff1d", "setxor1d"):
+        return f, [("ar1", x0), ("ar2", x1)], 1, {}
+    if op == "isin":
+        return f, [("element", x0), ("test_elements", x1)], 1, {}
     if op == "interp":
-        return np.interp(x0, x1, np.array([1.0, 2.0]))
+        return f, [("x", x0), ("xp", x1), ("fp", np.array([1.0, 2.0]))], 1, {}
     if op in ("linspace", "geomspace"):
-        return getattr(np, op)(x0, x1, 3)
+        return f, [("start", x0), ("stop", x1), ("num", 3)], 1, {}
     if op == "einsum":
-        return np.einsum("i,i->i", x0, x1)
+        return f, [(None, "i,i->i"), (None, x0), (None, x1)], 1, {}
     if op == "insert":
-        return np.insert(x0, 0, x1)
+        return f, [("arr", x0), ("obj", 0), ("values", x1)], 2, {}
     if op == "searchsorted":
-        return np.searchsorted(x0, x1)
+        return f, [("a", x0), ("v", x1)], 1, {}
     if op == "clip":
-        return np.clip(x0, x1, x1)
+        return f, [("a", x0), ("a_min", x1), ("a_max", x1)], 1, {}
     if op == "put":
-        return np.put(x0, [0], x1)
+        return f, [("a", x0), ("ind", [0]), ("v", x1)], 2, {}
     if op == "place":
-        return np.place(x0, np.array([True, False]), x1)
+        return f, [("arr", x0), ("mask", np.array([True, False])), ("vals", x1)], 2, {}
     if op == "putmask":
-        return np.putmask(x0, np.array([True, False]), x1)
+        return f, [("a", x0), ("mask", np.array([True, False])), ("values", x1)], 2, {}
     if op == "put_along_axis":
-        return np.put_along_axis(x0, np.array([0]), x1, 0)
+        return f, [("arr", x0), ("indices", np.array([0])), ("values", x1), ("axis", 0)], 2, {}
     if op == "fill_diagonal":
-        return np.fill_diagonal(x0, x1)
-    if op in ("isclose", "allclose", "array_equal", "array_equiv"):
-        return getattr(np, op)(x0, x1)
+        return f, [("a", x0), ("val", x1)], 1, {}
+    if op in ("isclose", "allclose"):
+        return f, [("a", x0), ("b", x1)], 1, {}
+    if op in ("array_equal", "array_equiv"):
+        return f, [("a1", x0), ("a2", x1)], 1, {}
     if op == "copyto":
-        return np.copyto(x0, x1)
+        return f, [("dst", x0), ("src", x1)], 1, {}
     if op == "copyto_where":
-        return np.copyto(x0, x1, where=np.array([True, False]))
+        return f, [("dst", x0), ("src", x1)], 1, {"where": np.array([True, False])}
     if op == "pad":
-        return np.pad(x0, 1, constant_values=x1)
+        return f, [("array", x0), ("pad_width", 1)], 2, {"constant_values": x1}
     if op == "histogram_range":
         hi = _G["uq"](4.0, x1.units) if hasattr(x1, "units") else 4.0
-        return np.histogram(x0, bins=2, range=(x1, hi))
+        return f, [("a", x0)], 1, {"bins": 2, "range": (x1, hi)}
     raise ValueError(op)
+
+
+ALIAS = {"clip": {"a_min": "min", "a_max": "max"}}  # NumPy >= 2.1 alias keyword names of value slots
+OUTSHAPE = {"concatenate": (4,), "stack": (2, 2), "choose": (2,), "clip": (2,)}
+
+
+def call_arrfn(case, x0, x1):
+    """Make the call in the requested form (Ufunc.tla: ArrFormsAll); returns (result, out buffer or None)."""
+    np = _G["np"]
+    form = case.get("form", "call")
+    f, args, first, extra = _arr_args(case, x0, x1)
+    out = None
+    if form in ("out", "kwout", "aliasout"):
+        # a legal destination: the first operand's unit, the result's shape
+        out = _G["ua"](np.full(OUTSHAPE[case["op"]], 9.0), x0.units)
+        extra = dict(extra, out=out)
+    if form in ("call", "out"):
+        return f(*[v for _, v in args], **extra), out
+    if form in ("kw", "kwout"):
+        return f(*[v for _, v in args[:first]], **{n: v for n, v in args[first:]}, **extra), out
+    if form == "kwall":
+        return f(**{n: v for n, v in args}, **extra), out
+    # two-bound operations: one-sided bounds and the alias names of the bounds
+    head = [v for _, v in args[:first]]
+    (nlo, lo), (nhi, hi) = args[first], args[first + 1]
+    if form == "lo":
+        return f(*head, lo, None, **extra), out
+    if form == "hi":
+        return f(*head, None, hi, **extra), out
+    if form == "kwlo":
+        return f(*head, **{nlo: lo}, **extra), out
+    if form == "kwhi":
+        return f(*head, **{nhi: hi}, **extra), out
+    if form.startswith("method"):
+        # the method spelling of a two-bound operation (a.clip): reaches unyt through __array_ufunc__
+        m = getattr(head[0], case["op"])
+        if form == "method":
+            return m(lo, hi), out
+        if form == "methodkw":
+            return m(min=lo, max=hi), out
+        if form == "methodlo":
+            return m(lo), out
+        return m(max=hi), out
+    al = ALIAS[case["op"]]
+    if form in ("alias", "aliasout"):
+        return f(*head, **{al[nlo]: lo, al[nhi]: hi}, **extra), out
+    if form == "aliaslo":
+        return f(*head, **{al[nlo]: lo}, **extra), out
+    if form == "aliashi":
+        return f(*head, **{al[nhi]: hi}, **extra), out
+    raise ValueError(form)
+
+
+def alias_ops(_case=None):
+    """Operations of the matrix whose value slots have alias keyword names in the NumPy at hand."""
+    import inspect
+
+    import numpy as np
+
+    return sorted(op for op, al in ALIAS.items() if all(a in inspect.signature(getattr(np, op)).parameters for a in al.values()))
 
 
 HDEF = {"la": (1.0, "length"), "lb": (1024.0, "length"), "ta": (1.0, "time"), "ma": (1.0, "mass"), "nq": (0.25, "dimensionless")}
@@ -405,13 +477,14 @@ def _observe(case, hu0, hu1):
     before = [snap(o) for o in ops]
     ubefore = (str(x0), str(x1)) if fam == "unitop" else None
     res = None
+    out = None
     exc = ""
     target_unit = None
     try:
         if fam == "ufunc":
             res, out = call_ufunc(case, x0, x1)
         elif fam == "arrfn":
-            res = call_arrfn(case, x0, x1)
+            res, out = call_arrfn(case, x0, x1)
             if res is None:
                 inplace_target = True
         elif fam == "setitem":
@@ -432,6 +505,9 @@ def _observe(case, hu0, hu1):
         exc = type(e).__name__
     after = [snap(o) for o in ops]
     same = before == after
+    if fam == "arrfn" and exc and out is not None:
+        # a refused call must not have written its out= buffer either
+        same = same and snap(out) == snap(_G["ua"](np.full(out.shape, 9.0), x0.units))
     if fam == "unitop":
         same = ubefore == (str(x0), str(x1))
     if exc:
